@@ -337,3 +337,38 @@ def enclosing_ifs(n):
             if prev.r in ('then', 'else'):
                 yield a, prev.r
         prev = a
+
+
+def must_hold(node):
+    """conditions that the syntax forces to have a known outcome whenever `node` is evaluated: the left operands of enclosing && / ||,
+    the conditions of enclosing if / ?: branches -> list of (cond node, outcome)"""
+    out = []
+    prev = node
+    for a in node.ancestors():
+        if a.k == 'BinaryOperator' and a.o in ('&&', '||') and len(a.c) == 2 and prev is a.c[1]:
+            out.append((a.c[0], a.o == '&&'))
+        elif a.k == 'IfStmt' and prev.r in ('then', 'else'):
+            out.append((a.child('cond'), prev.r == 'then'))
+        elif a.k == 'ConditionalOperator' and len(a.c) == 3 and prev is not a.c[0]:
+            out.append((a.c[0], prev is a.c[1]))
+        prev = a
+    return out
+
+
+def feasible_values(conds, name, values):
+    """subset of the enumerators `values` ({name: int}) of variable `name` under which none of the (cond, outcome) pairs is refuted
+    (three valued folding: everything that is not a comparison of `name` with a constant is unknown)"""
+    from .dlist import fold
+    ok = []
+    for en, v in values.items():
+        good = True
+        for cond, outcome in conds:
+            env = dict(values)
+            env[name] = v
+            r = fold(cond, env)
+            if r is not None and bool(r) != outcome:
+                good = False
+                break
+        if good:
+            ok.append(en)
+    return ok
